@@ -76,7 +76,7 @@ def main():
 
 EXPLANATION = (
     'Proved in Lean for all strings s in the domain PlainPercent s (every conversion specification whose conversion character is % is '
-    'exactly %%): accept_formats (accepted => CPython-model formats it with any arguments of the reported shape and types), '
+    'exactly %%): accept_formats (accepted => CPython-model formats it with any arguments of the reported shape and types: tuple, mapping, or the bare value for a single unnamed argument), '
     'argsOf_matches / accept_formats_canonical (such arguments exist: a tuple, or a mapping thanks to one-type-per-key and the '
     'named/unnamed exclusion), malformed_rejected (rejected by CPython whatever the arguments => rejected by the parser), '
     'reject_reasons (rejected although CPython can format => ArgumentIndexingMixture / ArgumentTypeMismatch / WidthRangeError / '
@@ -92,7 +92,8 @@ EXPLANATION = (
     'interpreter (pyfmt-oracle stream against CPython 3.12.1, 64-bit; values abstracted to int/float/str/other; text and memory not '
     'modelled) and of the hand-written model to the code (pyfmt-* streams). Finding fixed in /repo: 84eb507 (integer conversions with '
     'literal precision 2^31-3..2^31-1 were accepted; CPython raises OverflowError for them whatever the argument). OUTSTANDING: '
-    'nothing of the design list is missing; not stated in Lean: arguments given as a single non-tuple value.')
+    'nothing of the design list is missing.  Also proved: outside_domain_cpython_rejects / accept_formats_needs_domain (outside the '
+    'domain the CPython 3.12 model formats nothing while the parser accepts e.g. %5% - the hypothesis is necessary).')
 
 if __name__ == '__main__':
     common.main_wrapper(main)
